@@ -72,6 +72,23 @@ def chk_routes(c):
         Js = f.pointwise_jacobian(pts)
         for q, I in enumerate(idxs[:15]):
             assert np.allclose(np.squeeze(Js[q]), np.squeeze(J[I]), rtol=1e-10, atol=1e-10), 'scattered Jacobian differs from grid Jacobian'
+    # the same points as multi-dimensional coordinate arrays with other memory layouts (Fortran order, transposed views): positions are kept
+    m, (r_, c_) = 6, (2, 3)
+    for layout in ('F', 'T'):
+        if layout == 'F':
+            pts2 = tuple(np.asfortranarray(P[:m, sdim - 1 - k].reshape(r_, c_)) for k in range(sdim))
+        else:
+            pts2 = tuple(np.ascontiguousarray(P[:m, sdim - 1 - k].reshape(r_, c_).T).T for k in range(sdim))    # C-ordered view of F-ordered memory
+        V2 = f.pointwise_eval(pts2)
+        assert V2.shape[:2] == (r_, c_), 'scattered evaluation of 2x3 coordinate arrays has shape %r' % (V2.shape,)
+        for q in range(m):
+            assert np.allclose(V2[q // c_, q % c_], V[idxs[q]], rtol=1e-11, atol=1e-11), \
+                'scattered evaluation on %s-layout coordinate arrays returns the value of another point at position %r' % (layout, (q // c_, q % c_))
+        if hasattr(f, 'pointwise_jacobian') and len(c['tail']) <= 1:
+            J2 = f.pointwise_jacobian(pts2)
+            for q in range(m):
+                assert np.allclose(np.squeeze(J2[q // c_, q % c_]), np.squeeze(J[idxs[q]]), rtol=1e-10, atol=1e-10), \
+                    'scattered Jacobian on %s-layout coordinate arrays is permuted' % layout
     # Jacobian = derivative of the evaluated map (central differences inside the domain)
     h = 1e-6
     for I in idxs[:6]:
